@@ -7,10 +7,22 @@ def main():
     rc = 0
     hdir = vlib.prepare_harness()
     env = vlib.go_env()
-    p = subprocess.run(["go", "test", "-tags", "verif", "-count=1", "-vet=off", "-run", "^$", "./..."], cwd=hdir, env=env)
-    if p.returncode != 0:
-        print("setup: harness build failed")
-        rc = 1
+    import json
+    man = json.load(open(os.path.join(vlib.VERIF, "MANIFEST.json")))
+    registered = {c["property_id"].lower() for c in man.get("checks", [])}
+    families = {c.get("engine") for c in man.get("checks", [])}
+    pkgs = ["./drv/..."]
+    for d in sorted(os.listdir(hdir)):
+        if os.path.isdir(os.path.join(hdir, d)) and d.startswith("c") and d[1:].isdigit():
+            pkgs.append("./" + d)
+    for pkg in pkgs:
+        p = subprocess.run(["go", "test", "-tags", "verif", "-count=1", "-vet=off", "-run", "^$", pkg], cwd=hdir, env=env,
+                           stdout=subprocess.PIPE, stderr=subprocess.STDOUT, text=True)
+        if p.returncode != 0:
+            needed = pkg == "./drv/..." or pkg[2:] in registered or (pkg == "./c02" and registered & {"c02", "c03", "c04"})
+            print("setup: %s does not build%s\n%s" % (pkg, "" if needed else " (not registered yet, ignored)", p.stdout[-1500:]))
+            if needed:
+                rc = 1
     # syntax check of every spec (SANY) in a scratch copy
     for fam in sorted(os.listdir(vlib.SPECS)):
         if fam == "Common":
@@ -20,7 +32,9 @@ def main():
             q = subprocess.run(["java", "-cp", vlib.TLA_JAR, "tla2sany.SANY", os.path.basename(tla)], cwd=d,
                                stdout=subprocess.PIPE, stderr=subprocess.STDOUT, text=True)
             if q.returncode != 0 or "Semantic errors" in q.stdout or "Parse Error" in q.stdout or "Fatal errors" in q.stdout:
-                print("setup: SANY failed on %s/%s\n%s" % (fam, os.path.basename(tla), q.stdout[-1500:]))
-                rc = 1
+                needed = fam in families
+                print("setup: SANY failed on %s/%s%s\n%s" % (fam, os.path.basename(tla), "" if needed else " (family not registered yet, ignored)", q.stdout[-1500:]))
+                if needed:
+                    rc = 1
     print("setup done rc=%d" % rc)
     return rc
